@@ -2,3 +2,4 @@ import Driver.Util
 import Driver.Ring
 import Driver.Kcp
 import Driver.Sess
+import Driver.Wait
